@@ -351,6 +351,15 @@ fn exec_op(op: &Op, pool: &BTreeMap<String, String>, doc: &HashMap<Cat, Vec<Stri
                 by_name.entry(base_name(path).to_string()).or_default().push(name);
             }
             for (bare, members) in &by_name {
+                if !crate::model::eligible_name(bare) {
+                    // an inert name: nothing may be reported under it
+                    for l in pats {
+                        if flat.iter().any(|e| e.pat == *l && e.file == *bare) {
+                            out.push((members[0].clone(), l.clone(), Some(vec![-2]), format!("{} [inert entry {} was analysed]", how, bare)));
+                        }
+                    }
+                    continue;
+                }
                 for l in pats {
                     let es: Vec<&crate::pats::Entry> = flat
                         .iter()
@@ -917,6 +926,17 @@ fn gen_op_dir(rng: &mut Rng, names: &[String], focus: &[String]) -> Op {
                 continue;
             }
             tree.push((path, name));
+        }
+        // inert neighbours (never analysed; their pool text is irrelevant): a walk must get past them
+        if rng.chance(1, 3) {
+            for _ in 0..rng.range(1, 2) {
+                let dir = rng.pick(&dirs);
+                let inert = *rng.pick(&["skip.t.sol", "Test.T.sol", "README", "A.SOL", "notes.txt", ".t.sol"]);
+                let path = format!("{}/{}", dir, inert);
+                if !tree.iter().any(|(p, _)| *p == path) {
+                    tree.push((path, pick_name(rng)));
+                }
+            }
         }
         let mut w = World::new("/d");
         for (p, _) in &tree {
